@@ -299,8 +299,53 @@ def run_rubik_env(R, cfg):
     R.reach("env: a move that leaves the solved cube exists in the harness domain", sp.A, (H._solved(vs(sp.st.cube)) & ~H._solved(vs(sp.ns.cube))).z())
 
 
+def run_rubik_actions(R, n):
+    """the action-encoding laws alone (index arithmetic, no cube): cheap at sizes far beyond those at which the moves themselves are
+    encoded - a depth bound copied from the amount bound only shows for cube_size >= 8 (depth >= 3)"""
+    from jumanji.environments.logic.rubiks_cube import utils as U
+    ctx = Ctx()
+    A_ = 6 * (n // 2) * 3
+    R.bound(cube_size=n, flat_actions=A_, what="flatten_action / unflatten_action only")
+    # flat <-> (face, depth, amount) are mutually inverse on their ranges
+    f_ = ctx.fresh_arr("face", (), np.int32, 0, 5)
+    d_ = ctx.fresh_arr("depth", (), np.int32, 0, n // 2 - 1)
+    a_ = ctx.fresh_arr("amount", (), np.int32, 0, 2)
+    un = SV(np.array([S.scalar(f_), S.scalar(d_), S.scalar(a_)], dtype=object), np.int32)
+    flat = S.call(ctx, lambda u: U.flatten_action(u, n), un, R=R, name="flatten_action")
+    back = S.call(ctx, lambda k_: U.unflatten_action(k_, n), flat, R=R, name="unflatten_action")
+    A2 = list(ctx.assumptions)
+
+    def rp_flat(model):
+        u = np.array([int(S.model_sv(model, x)) for x in (f_, d_, a_)], np.int32)
+        k_ = int(U.flatten_action(jnp.asarray(u), n))
+        b_ = np.asarray(U.unflatten_action(jnp.asarray(k_, jnp.int32), n))
+        return (not np.array_equal(b_, u) or not (0 <= k_ < A_)), {"cube_size": n, "unflat": u.tolist(), "flat": k_, "back": b_.tolist()}
+    R.prove("unflatten(flatten(face, depth, amount)) == (face, depth, amount)", A2, S.sv_eq(back, un), replay=rp_flat)
+    fz = S.scalar(flat)
+    R.prove("flatten(face, depth, amount) is a valid flat action and names that move in generate_all_moves order", A2,
+            S.conj([J.s_cmp("ge", fz, 0, np.int32), J.s_cmp("lt", fz, A_, np.int32),
+                    S.el_eq(fz, J.s_binop("add", J.s_binop("add", J.s_binop("mul", S.scalar(f_), 3 * (n // 2), np.int32), J.s_binop("mul", S.scalar(d_), 3, np.int32), np.int32), S.scalar(a_), np.int32), np.int32)]),
+            replay=rp_flat)
+    k2 = ctx.fresh_arr("k", (), np.int32, 0, A_ - 1)
+    un2 = S.call(ctx, lambda k_: U.unflatten_action(k_, n), k2)
+    fl2 = S.call(ctx, lambda u: U.flatten_action(u, n), un2)
+
+    def rp_flat2(model):
+        k_ = int(S.model_sv(model, k2))
+        u = np.asarray(U.unflatten_action(jnp.asarray(k_, jnp.int32), n))
+        return (int(U.flatten_action(jnp.asarray(u), n)) != k_ or not (0 <= u[0] <= 5 and 0 <= u[1] < n // 2 and 0 <= u[2] <= 2)), {"flat": k_, "unflat": u.tolist()}
+    u2 = un2.obj().reshape(-1)
+    R.prove("flatten(unflatten(k)) == k and unflatten(k) is in range, for every flat action k", list(ctx.assumptions),
+            S.conj([S.sv_eq(fl2, k2), J.s_cmp("ge", u2[0], 0, np.int32), J.s_cmp("le", u2[0], 5, np.int32), J.s_cmp("ge", u2[1], 0, np.int32),
+                    J.s_cmp("lt", u2[1], n // 2, np.int32), J.s_cmp("ge", u2[2], 0, np.int32), J.s_cmp("le", u2[2], 2, np.int32)]), replay=rp_flat2)
+
+    R.sample({"cube_size": n, "flat_actions": A_})
+
+
 def jobs(tier, seed):
     js = [(f"Rubik/n={n}", "checks.C17", "run_rubik", {"n": n}) for n in ([2, 3, 4, 5] if tier == "quick" else [2, 3, 4, 5, 6, 7])]
+    for n in ([6, 7, 8, 9, 11] if tier == "quick" else [6, 7, 8, 9, 10, 11, 12, 16, 21]):
+        js.append((f"Rubik-actions/n={n}", "checks.C17", "run_rubik_actions", {"n": n}))
     for cfg in (["SlidingTilePuzzle@2", "SlidingTilePuzzle@3"] if tier == "quick" else ["SlidingTilePuzzle@2", "SlidingTilePuzzle@3", "SlidingTilePuzzle@4"]):
         js.append((f"{cfg}", "checks.C17", "run_sliding", {"cfg": cfg}))
     for cfg in (["RubiksCube@2", "RubiksCube@3"] if tier == "quick" else ["RubiksCube@2", "RubiksCube@3", "RubiksCube@4"]):
